@@ -298,7 +298,11 @@ fn rand_literal(r: &mut Rng, level: usize, vars: &[&str], cuts: bool, depth: usi
         14 => if cuts && depth == 0 { "!".to_string() } else { rand_call(r, level, vars) },
         15 => "fail".to_string(),
         16 | 17 => if r.below(5) == 0 { format!("print_list({}, {})", rand_arg(r, vars), vars[r.below(vars.len())]) } else { format!("print(<%s>, {})", vars[r.below(vars.len())]) },
-        18 => if r.below(2) == 0 { "nl".to_string() } else if r.below(2) == 0 { format!("count([{}, {}], {})", rand_arg(r, vars), rand_arg(r, vars), vars[r.below(vars.len())]) }
+        18 => if r.below(3) == 0 { "nl".to_string() } else if r.below(2) == 0 {
+                  // functor with the arity given or asked for (seed C06-5)
+                  { let (t, n) = [("s(a)", "1"), ("g0(a, 1)", "2"), ("[a]", "1"), ("s($Z)", "1")][r.below(4)];
+                    format!("functor({}, {}, {})", t, ["$X", "$Y"][r.below(2)], if r.below(3) == 0 { "$W" } else { n }) }
+              } else if r.below(2) == 0 { format!("count([{}, {}], {})", rand_arg(r, vars), rand_arg(r, vars), vars[r.below(vars.len())]) }
               else { format!("append({}, [{}], {})", rand_arg(r, vars), rand_arg(r, vars), vars[r.below(vars.len())]) },
         _ => if depth == 0 {
                  // one level of parentheses only: a group inside a group trips the tokenizer (`((a, b); c)` is rejected with
